@@ -7,7 +7,7 @@ COQ_FILES = ['Extract/C20.v', 'Properties/C20.v']
 DRIVER = 'c20'
 IMPL = 'harness/impl/c20_impl.py'
 ALLOWED_AXIOMS = []
-EXHAUSTIVE = True
+EXHAUSTIVE = False     # exhaustive over the stated finite domain only in the thorough tier (see RULE)
 ASSUMPTIONS = [
     'theorems are about coq/Model/Service.v + coq/Model/CacheModel.v (lib_* mirrors services.py: provider order, '
     '_provider_execute, __init__/blockcount, getbalance, getutxos, gettransaction, getrawtransaction, isspent, '
@@ -21,9 +21,10 @@ ASSUMPTIONS = [
     'index over transaction nodes), per-output spent flags, multi-address getbalance, cache_blocks; confirmations of a '
     'cached transaction are recomputed by the library and are not part of the compared content',
 ]
-RULE = ('exhaustive outcome assignments {ok, exception, AttributeError, False, malformed, skip}^k (k<=3 quick, k<=4 '
-        'thorough) x priority orders x min_providers{1,2} x max_providers{1,2} x max_errors{1,2,4} for every modelled '
-        'query method, each followed by a cache read-back step; cache cold/warm/partial/expired/disabled histories; '
+RULE = ('all outcome assignments {ok, exception, AttributeError, False, malformed, skip}^k x min_providers{1,2} x '
+        'max_providers{1,2} x max_errors{1,2,4} for every modelled query method (quick: k<=2 all 12 settings and all '
+        'priority orders, k=3 every other setting, one seeded priority order; thorough: k<=4 all settings, all orders up to '
+        'k=3), each followed by a cache read-back step; cache cold/warm/partial/expired/disabled histories; '
         'constructor stream; a case is non-trivial when its first query step returns a value; distinct by request')
 
 H0 = 800000
